@@ -139,6 +139,24 @@ def dec2(x):
     a = x + {K}
     return a
 ''',
+    "lw": '''
+def lwrap():
+    z = 1
+
+    def lmk3():
+        a = z
+
+        def lfun3(x):
+            a = x + {K}
+            return a
+
+        return lfun3
+
+    return lmk3
+
+
+lmk3 = lwrap()
+''',
     "lk": '''
 class LK:
     def lmake2(self):
@@ -167,9 +185,9 @@ def rec(fn):
     return wrapper
 '''
 
-TARGETS = ["top", "meth", "om", "inner", "leaf", "dec", "maker", "deep", "ctop", "hdec", "rfun", "lmaker", "lfun", "dec2", "lmake2", "lfun2"]  # ctop/hdec share their bare names with top/dec
-PROBE_ONLY = {"maker", "deep", "lmaker", "lmake2"}
-LAZY = {"lfun": "lmaker", "lfun2": "lmake2"}  # instance -> its factory  # calling them again would create a second live closure
+TARGETS = ["top", "meth", "om", "inner", "leaf", "dec", "maker", "deep", "ctop", "hdec", "rfun", "lmaker", "lfun", "dec2", "lmake2", "lfun2", "lmk3", "lfun3"]  # ctop/hdec share their bare names with top/dec
+PROBE_ONLY = {"maker", "deep", "lmaker", "lmake2", "lmk3"}
+LAZY = {"lfun": "lmaker", "lfun2": "lmake2", "lfun3": "lmk3"}  # instance -> its factory  # calling them again would create a second live closure
 
 _DIR = None
 _N = [0]
@@ -223,7 +241,8 @@ class World:
 
     def make(self, t="lfun"):
         if t not in self.lazy and LAZY[t] in self.present:
-            self.lazy[t] = self.mod.lmaker() if t == "lfun" else self.mod.LK().lmake2()
+            self.lazy[t] = {"lfun": lambda: self.mod.lmaker(), "lfun2": lambda: self.mod.LK().lmake2(),
+                            "lfun3": lambda: self.mod.lmk3()}[t]()
             self.present.add(t)
             return True
         return False
@@ -238,7 +257,7 @@ class World:
 
     def _has(self, t):
         return {"top": "top", "meth": "Outer", "om": "Outer", "inner": "inner", "leaf": "leaf", "dec": "dec",
-                "maker": "maker", "deep": "deep", "ctop": "Coll", "hdec": "hdec", "rfun": "rfun", "lmaker": "lmaker", "dec2": "dec2", "lmake2": "LK"}[t] in vars(self.mod)
+                "maker": "maker", "deep": "deep", "ctop": "Coll", "hdec": "hdec", "rfun": "rfun", "lmaker": "lmaker", "dec2": "dec2", "lmake2": "LK", "lmk3": "lmk3"}[t] in vars(self.mod)
 
     def real(self, t):
         """The function object created by the def."""
@@ -248,7 +267,8 @@ class World:
                 "maker": lambda: m.maker, "deep": lambda: m.deep, "ctop": lambda: m.Coll.top,
                 "hdec": lambda: m.hdec, "rfun": lambda: m.rfun, "lmaker": lambda: m.lmaker,
                 "lfun": lambda: self.lazy["lfun"], "lfun2": lambda: self.lazy["lfun2"],
-                "dec2": lambda: m.REG["dec2"], "lmake2": lambda: m.LK.lmake2}[t]()
+                "dec2": lambda: m.REG["dec2"], "lmake2": lambda: m.LK.lmake2, "lmk3": lambda: m.lmk3,
+                "lfun3": lambda: self.lazy["lfun3"]}[t]()
 
     def handle(self, t):
         """What a user would pass to refstring()."""
@@ -258,13 +278,14 @@ class World:
                 "maker": lambda: m.maker, "deep": lambda: m.deep, "ctop": lambda: m.Coll.top,
                 "hdec": lambda: m.hdec, "rfun": lambda: m.rfun, "lmaker": lambda: m.lmaker,
                 "lfun": lambda: self.lazy["lfun"], "lfun2": lambda: self.lazy["lfun2"],
-                "dec2": lambda: m.dec2, "lmake2": lambda: m.LK.lmake2}[t]()
+                "dec2": lambda: m.dec2, "lmake2": lambda: m.LK.lmake2, "lmk3": lambda: m.lmk3,
+                "lfun3": lambda: self.lazy["lfun3"]}[t]()
 
     def name_selector(self, t):
         return {"top": "top > a", "meth": "Outer.Inner.meth > a", "om": "Outer.om > a", "inner": "inner > a",
                 "leaf": "leaf > a", "dec": "dec > a", "maker": "maker > a", "deep": "deep > a",
                 "ctop": "Coll.top > a", "hdec": "hdec > a", "rfun": "rfun > a", "lmaker": "lmaker > a", "lfun": "lfun > a", "dec2": "dec2 > a", "lmake2": "LK.lmake2 > a",
-                "lfun2": "lfun2 > a"}[t]
+                "lfun2": "lfun2 > a", "lmk3": "lmk3 > a", "lfun3": "lfun3 > a"}[t]
 
     def call(self, t, x):
         m = self.mod
@@ -323,7 +344,7 @@ def run_case(order, ks, ops, regime, rec=None):
                 if world.make(lt):
                     done.append(op)
                     for s in live:
-                        s[4].append({"a": 0})  # the factory's own `a = 0`
+                        s[4].append({"a": 1 if fac == "lmk3" else 0})  # the factory's own binding of a
                     if any(s[0] in (fac, "anc:" + fac) for s in stack):
                         flags.add("instance-created-under-probe")
                     states[lt] = HY.FnState(world.real(lt))
@@ -462,20 +483,21 @@ def strategy(max_ops):
         st.tuples(st.just("call"), tgt, st.integers(0, 9)),
         st.tuples(st.just("resolve"), tgt),
         st.tuples(st.just("resolve"), tgt),
-        st.tuples(st.just("make"), st.sampled_from(["lfun", "lfun2"])),
+        st.tuples(st.just("make"), st.sampled_from(["lfun", "lfun2", "lfun3"])),
     )
 
     @st.composite
     def cases(draw):
         order = draw(st.permutations(sorted(BLOCKS)))
         order = list(order)[: draw(st.integers(2, len(order)))]
-        ks = {t: draw(st.integers(1, 40)) * 20 + i for i, t in enumerate(["top", "meth", "om", "inner", "leaf", "dec", "ctop", "hdec", "rfun", "lfun", "dec2", "lk"])}
+        ks = {t: draw(st.integers(1, 40)) * 20 + i for i, t in enumerate(["top", "meth", "om", "inner", "leaf", "dec", "ctop", "hdec", "rfun", "lfun", "dec2", "lk", "lw"])}
         ks["lfun2"] = ks["lk"]
+        ks["lfun3"] = ks["lw"]
         # bias: operate mostly on one or two targets so that probes overlap
         focus = draw(st.one_of(
             st.lists(tgt, min_size=1, max_size=2),
             st.sampled_from([["inner", "maker"], ["leaf", "deep"], ["meth", "om"], ["leaf", "deep", "maker"],
-                             ["top", "ctop"], ["dec", "hdec"], ["rfun"], ["lfun", "lmaker"], ["lfun", "lmaker", "lfun"], ["lfun2", "lmake2"], ["dec2"],
+                             ["top", "ctop"], ["dec", "hdec"], ["rfun"], ["lfun", "lmaker"], ["lfun", "lmaker", "lfun"], ["lfun2", "lmake2"], ["lfun3", "lmk3"], ["dec2"],
                              ["dec2", "dec"]]),
         ))
         ops = draw(st.lists(op, min_size=3, max_size=max_ops))
